@@ -564,7 +564,8 @@ impl Adf {
                             ));
                         }
                     }
-                    res
+                    // a cube which is inconsistent with the current interpretation is skipped, the remaining cubes still need to be checked
+                    Ok::<(), ()>(())
                 });
             log::trace!("results found so far:{}", result.len());
             // checked one alternative, we can now conclude that only the other option may work
